@@ -158,7 +158,7 @@ def run(ctx):
         if e and any(x[0] == 'W' and not x[2] for x in e['events']):
             ctx.nontriv(('engine', c['q'], json.dumps(c['A']), c['fail_at']))
             ctx.stat('engine_refused_write')
-    ctx.sample({'kind': 'engine', 'query': cases[1]['q'], 'A': cases[1]['A'], 'fail_at': cases[1]['fail_at'], 'model': exp[1], 'implementation': {k: got[1].get(k) for k in ('events', 'pulls', 'error')}})
+    ctx.sample_safe(lambda: {'kind': 'engine', 'query': cases[1]['q'], 'A': cases[1]['A'], 'fail_at': cases[1]['fail_at'], 'model': exp[1], 'implementation': {k: got[1].get(k) for k in ('events', 'pulls', 'error')}})
 
     # (b) CSVWriter over a stream raising BrokenPipeError at its k-th write
     pc = pipe_cases(ctx, nt)
@@ -201,7 +201,7 @@ def run(ctx):
             ctx.nontriv(('pipe', c['q'], json.dumps(c['A']), c['k']))
             ctx.stat('pipe_broken')
     # promptness: after the break the scan stops: pulls no larger than a run that is never refused
-    ctx.sample({'kind': 'pipe', 'query': pc[3]['q'], 'A': pc[3]['A'], 'k': pc[3]['k'], 'model': pexp[3], 'implementation': pgot[3]})
+    ctx.sample_safe(lambda: {'kind': 'pipe', 'query': pc[3]['q'], 'A': pc[3]['A'], 'k': pc[3]['k'], 'model': pexp[3], 'implementation': pgot[3]})
 
     # (c) invalid UTF-8 byte sequences at every position x chunk sizes (runtime: decoder observed, not modelled)
     bc = bytes_cases(ctx)
@@ -235,7 +235,7 @@ def run(ctx):
         ctx.count()
         ctx.stat('fd_%s_%s' % (c['tags'][1], (g.get('error') or ['ok'])[0] if isinstance(g, dict) else 'x'))
         ctx.nontriv(('fd', c['tags'][1]))
-    ctx.sample({'kind': 'fd', 'scenarios': [[c['tags'][1], g] for c, g in zip(fc, fgot)][:4]})
+    ctx.sample_safe(lambda: {'kind': 'fd', 'scenarios': [[c['tags'][1], g] for c, g in zip(fc, fgot)][:4]})
     ctx.rule = ('(a) recording writer refusing its k-th write for every k x 9 query shapes x random tables: trace/pulls/error = model, protocol checked on the implementation trace; '
                 '(b) CSVWriter over a stream raising BrokenPipeError at its k-th write for every k: accepted text = model prefix, no operation after the refusal, no error, sys.stdout left open; '
                 '(c) 7 invalid UTF-8 sequences at every byte position of 5 samples x chunk sizes {1,2,3,1024}: IO-handling error and no records; (d) /proc/self/fd before/after query_csv on 14 '
